@@ -52,7 +52,7 @@ func lenChoice(name string, q, t int) int {
 // C03_value_bytes: ParseValueString over every byte string up to N bytes,
 // then both writers (all indent signs) over whatever was parsed.
 func C03_value_bytes() {
-	n := lenChoice("len", 3, 5)
+	n := lenChoice("len", 4, 6)
 	s := sym.String("s", n)
 	sym.Budget(200_000)
 	v, err := ggql.ParseValueString(s)
@@ -70,7 +70,7 @@ func C03_value_bytes() {
 
 // C03_exe_bytes: ResolveBytes over every byte string up to N bytes.
 func C03_exe_bytes() {
-	n := lenChoice("len", 3, 5)
+	n := lenChoice("len", 4, 6)
 	src := sym.Bytes("src", n)
 	// (the reflection strategy's argument handling is the subject of
 	// C03_resolve_adversarial; byte-level exploration runs over the other two)
@@ -82,7 +82,7 @@ func C03_exe_bytes() {
 
 // C03_sdl_bytes: Root.Parse over every byte string up to N bytes.
 func C03_sdl_bytes() {
-	n := lenChoice("len", 3, 5)
+	n := lenChoice("len", 4, 6)
 	src := sym.Bytes("src", n)
 	root := ggql.NewRoot(nil)
 	sym.Budget(1_000_000)
